@@ -147,7 +147,15 @@ func (s *Script) features(phase int, v int) string {
 }
 
 // playDev sends the deviation for a step. Returns true if the connection was ended by it.
-func (c *Conn) playDev(step string, d Dev, req *Event) (ended bool) {
+type devIO interface {
+	Send(s string) error
+	Close()
+	HalfClose()
+}
+
+func (c *Conn) playDev(step string, d Dev, req *Event) (ended bool) { return playDevOn(c, step, d, req) }
+
+func playDevOn(c devIO, step string, d Dev, req *Event) (ended bool) {
 	id := ""
 	if req != nil {
 		id = req.Attr["id"]
